@@ -18,6 +18,7 @@ BUDGET = {
     "quick": {"workers": 16, "cases": 800, "secs": 60, "min_cases": 6400},
     "thorough": {"workers": 16, "rounds": 4, "cases": 2200, "secs": 420, "min_cases": 70400},
 }
+BUILD_VERDICTS = ("blackbox_definition_changed",)  # the registry is part of this property (see gen.circuits.Misbehaved)
 ANCHORS = ["circuit:Circuit.add_subcircuit", "circuit:Circuit.fill_blackbox", "circuit:Circuit.add_blackbox", "tx:strip_blackboxes"]
 
 
@@ -117,7 +118,7 @@ def gen(rng, ctx):
     if rng.random() < 0.5:
         ign = rng.choice([None, None, "p", ["p", "o"], "a0", ["a1"]])
         if scan:
-            ign = rng.choice(["SD", "QN", "CK", ["SD"], ["QN", "SE"], None])
+            ign = rng.choice(["SD", "QN", "CK", ["SD"], ["QN", "SE"], None, "D", ["D"], ["Q"], ["D", "Q"], ["E", "K"]])  # D/SD, Q/QN: an ignored name that is the tail of another pin name
         ops.append({"op": "strip_blackboxes", "ignore_pins": ign})
         if isinstance(ign, list) and rng.random() < 0.5:
             ops[-1]["ign_rep"] = rng.choice(["tuple", "set", "frozenset"])
